@@ -505,6 +505,7 @@ func genCapx(r *rand.Rand, id string, tier string) string {
 		maxOps = 40
 	}
 	var ops []string
+	nnOn := c.Opt&fNNest != 0
 	if c.Cap >= 2 && r.Intn(4) == 0 {
 		// shrink-then-refill prologue: the slice is rebuilt by Remove / Reset, grown back to full, and then an
 		// Insert is attempted at an interior position of the full stack (it must fail and change nothing)
@@ -537,7 +538,7 @@ func genCapx(r *rand.Rand, id string, tier string) string {
 		case 7:
 			ops = append(ops, fmt.Sprintf("rem %d", r.Intn(k+1)))
 		case 8, 9:
-			if c.Cap != 0 && c.Cap <= 12 && c.Ppf == 0 && c.Opt&fNNest == 0 && r.Intn(5) == 0 {
+			if c.Cap != 0 && c.Cap <= 12 && c.Ppf == 0 && !nnOn && r.Intn(5) == 0 {
 				ops = append(ops, "xferself") // source and destination are one instance: still never beyond the capacity
 				break
 			}
@@ -550,7 +551,12 @@ func genCapx(r *rand.Rand, id string, tier string) string {
 				ops = append(ops, "pop")
 			}
 		case 11:
-			if r.Intn(3) == 0 {
+			if r.Intn(4) == 0 {
+				// no-nesting is about Stacks, not about room: the capacity holds with the option on
+				b := r.Intn(2)
+				nnOn = b == 1
+				ops = append(ops, fmt.Sprintf("nnest %d", b))
+			} else if r.Intn(3) == 0 {
 				// the capacity getters do not depend on the read-only flag
 				ops = append(ops, fmt.Sprintf("ro %d", r.Intn(2)))
 			} else if r.Intn(2) == 0 {
@@ -656,7 +662,10 @@ func genPol(r *rand.Rand, id string, tier string) string {
 			var vs []string
 			for j, m := 0, r.Intn(6); j < m; j++ {
 				var v V
-				switch r.Intn(5) {
+				switch r.Intn(6) {
+				case 5:
+					// zero-valued instances (and a pointer to one) are values: offered to the policy, stored if approved
+					v = []V{{T: 'Z', Form: "n"}, {T: 'Y', Form: "n"}, {T: 'Z', Form: "a"}, {T: 'o', Ty: 22, ID: 1}}[r.Intn(4)]
 				case 0:
 					v = V{T: 'N'}
 				case 1:
@@ -702,9 +711,16 @@ func genXfer(r *rand.Rand, id string, tier string) string {
 	case 0:
 		dest = V{T: 'Z', Form: []string{"n", "a", "p"}[r.Intn(3)]}
 	case 1:
-		dest = []V{{T: 'i', I: 5}, {T: 'N'}, {T: 's', S: "x"}, {T: 'C', Form: "n", Kw: "k", Op: "c1", Xs: []V{{T: 'i', I: 1}}}, {T: 'o', Ty: 3, ID: 1}, {T: 'o', Ty: 22, ID: 1}, {T: 'o', Ty: 23, ID: 1}, {T: 'o', Ty: 20, ID: 3}}[r.Intn(8)]
+		dest = []V{{T: 'i', I: 5}, {T: 'N'}, {T: 's', S: "x"}, {T: 'C', Form: "n", Kw: "k", Op: "c1", Xs: []V{{T: 'i', I: 1}}}, {T: 'o', Ty: 3, ID: 1}, {T: 'o', Ty: 22, ID: 1}, {T: 'o', Ty: 23, ID: 1}, {T: 'o', Ty: 20, ID: 3},
+			// a Condition is not a Stack, whatever it holds
+			{T: 'C', Form: "n", Kw: "k", Op: "c1", Xs: []V{{T: 'K', Form: "n", Cfg: Cfg{Kind: 4}, Xs: []V{{T: 'i', I: 1}}}}},
+			{T: 'C', Form: "a", Kw: "k", Op: "c1", Xs: []V{{T: 'K', Form: "n", Cfg: Cfg{Kind: 1}}}},
+			{T: 'C', Form: "p", Kw: "k", Op: "c1", Xs: []V{{T: 'K', Form: "a", Cfg: Cfg{Kind: 2}, Xs: []V{{T: 'i', I: 2}}}}}}[r.Intn(11)]
 	case 2:
 		dc.Opt |= fRO
+		if r.Intn(3) == 0 {
+			dc.Err = 7 // read-only is read-only, whatever else is recorded
+		}
 		dest = genStackLit(r, dc, nd, true)
 	default:
 		if r.Intn(4) == 0 {
